@@ -54,8 +54,9 @@ def c09(ctx):
     entries = inv.entries_exported("msi") + [f for f in prog.fns.values() if f.crate == "msi_ffi" and f.kind == "Fn"]
     n = inv.run(ctx, "PANIC", entries, label="the public API (open, reads, mutators+flush, ffi exports)")
     ctx.floor("PANIC", "potential panic sites reachable from the public API", n, 120)
-    from .rules import alloc
+    from .rules import alloc, dml
     alloc.run(ctx, entries)
+    dml.cap_panic_guard(ctx)
     from .rules import loops
     loops.run(ctx, entries)
     ctx.assume(EXT_ASSUME)
@@ -152,8 +153,9 @@ def c13(ctx):
 
 @prop("C18")
 def c18(ctx):
-    from .rules import timestamp
+    from .rules import timestamp, propset
     timestamp.run(ctx)
+    propset.run(ctx, only_type_id=True)
     n = panic_module(ctx, "PANIC(timestamp)", ("src/internal/timestamp.rs",),
                      lambda f: (f.file == "src/internal/timestamp.rs" and f.kind != "Closure") or
                      re.search(r"SummaryInfo::(set_creation_time|set_creation_time_to_now|creation_time)$", f.path) is not None,
@@ -345,6 +347,8 @@ def c20(ctx):
     eam.pre_valid(ctx)
     prog = ctx.prog
     inv = inventory(prog)
+    from .rules import dml as _dml
+    _dml.cap_panic_guard(ctx)
     ctx.rule("PANIC(capacity)", PANIC_TEXT)
     entries = [prog.fn("msi::internal::package::Package::<F>::" + n) for n in ("insert_rows", "update_rows", "delete_rows", "create_table", "drop_table", "write_stream")]
     n = inv.run(ctx, "PANIC(capacity)", entries, only=lambda f: f.file in ("src/internal/stringpool.rs", "src/internal/query.rs", "src/internal/table.rs", "src/internal/value.rs"),
